@@ -13,13 +13,17 @@ for d in sorted(glob.glob(os.path.join(ROOT, "seeded", "C*-agent*"))):
     conf = open(os.path.join(d, "confirm.txt")).read() if os.path.exists(os.path.join(d, "confirm.txt")) else ""
     sigs = sorted(set(re.findall(r"^  \[([^\]]+)\]", conf, re.M)))
     detected = "VIOLATION property=" in conf
-    rows.append((os.path.basename(d), m["needs_to_manifest"], ", ".join(sigs) if detected else "**NOT DETECTED**",
+    oos = m.get("in_scope") is False
+    rows.append((os.path.basename(d), m["needs_to_manifest"],
+                 ", ".join(sigs) if detected else ("not detected - outside the property's stated scope (10.5b)" if oos else "**NOT DETECTED**"),
                  "yes" if m["caught_before_strengthening"] else "no - " + (m.get("strengthening") or "")))
 n = len(rows)
 first = sum(1 for r in rows if r[3] == "yes")
-det = sum(1 for r in rows if "NOT DETECTED" not in r[2])
+det = sum(1 for r in rows if "not detected" not in r[2].lower())
+nos = sum(1 for r in rows if "outside the property" in r[2])
 out = [f"{n} seeded changes, {det} detected by the committed quick tier, {first} of them already by the check as it stood when the "
-       f"change arrived, {det - first} after strengthening.", "",
+       f"change arrived, {det - first} after strengthening; {nos} need an operation outside the property's stated scope and are deliberately "
+       f"not chased (10.5b); {n - det - nos} in-scope changes are undetected.", "",
        "| seeded change | what it needs to manifest | caught by `./check CNN` (signatures) | caught by the check as it was before this change was seen? |",
        "|---|---|---|---|"]
 out += ["| `%s` | %s | %s | %s |" % r for r in rows]
